@@ -916,9 +916,23 @@ func (t *fnTrans) applyContract(fc *FuncContract, key string, sig *types.Signatu
 		bindRes(0, res, resTy)
 	}
 	defer t.applyOnReturn(fc, post)
+	// a clause that cannot be expressed in the caller's arithmetic mode (bit operations of a bv64
+	// callee seen from an Int-mode caller) is dropped at this call site: fewer assumptions, still sound
+	assumeClause := func(c *Clause) (Term, bool) {
+		n := len(t.errs)
+		a := post.boolOf(c.Expr)
+		if len(t.errs) > n {
+			t.errs = t.errs[:n]
+			t.assumptions["clause of "+short+" not usable at this call site (arithmetic mode): "+c.Src] = true
+			return "", false
+		}
+		return a, true
+	}
 	if len(insts) == 0 {
 		for _, c := range fc.Ensures {
-			t.assume(post.boolOf(c.Expr))
+			if a, ok := assumeClause(c); ok {
+				t.assume(a)
+			}
 		}
 		return res
 	}
@@ -928,8 +942,8 @@ func (t *fnTrans) applyContract(fc *FuncContract, key string, sig *types.Signatu
 			post.vars[k] = b
 		}
 		for _, c := range fc.Ensures {
-			a := post.boolOf(c.Expr)
-			if !seen[a] {
+			a, ok := assumeClause(c)
+			if ok && !seen[a] {
 				seen[a] = true
 				t.assume(a)
 			}
